@@ -452,8 +452,8 @@ def run(ctx: lib.Ctx) -> None:
     if ctx.thorough:
         lens = list(range(0, NMAX + 1)) + sorted(rng.sample(range(NMAX + 1, 1500), 12))
     else:
-        lens = sorted(set(list(range(0, 41)) + [2 ** k + d for k in range(6, 10) for d in (-1, 0, 1, 2)] + [600, 599, 384, 385]
-                          + rng.sample(range(41, NMAX), 4)))
+        lens = sorted(set(list(range(0, 41)) + [2 ** k + d for k in (6, 7) for d in (-1, 0, 1, 2)] + [256, 257, 385, 512, 513, 600]
+                          + rng.sample(range(41, NMAX), 3)))
     allcases = []  # (cost, (literal, stream, meta))
     for n in lens:
         if n not in free:
